@@ -325,7 +325,7 @@ let infer_line l =
     let edges = List.init ne (fun _ -> nat (next ())) in
     match k with
     | 0 -> IVParam | 1 -> IVNil | 2 -> IVConstUnk | 3 -> IVNonNil | 4 -> IVChg (nat x) | 5 -> IVMk (nat x) | 6 -> IVSlice (nat x)
-    | 7 -> IVS2AP (nat x, lp = 1) | 8 -> IVAppend1 (nat x) | 9 -> IVAppendN | 10 -> IVPhi edges | _ -> IVOther) in
+    | 7 -> IVS2AP (nat x, lp = 1) | 8 -> IVAppend1 (nat x) | 9 -> IVAppendN (nat x, lp = 1) | 10 -> IVPhi edges | _ -> IVOther) in
   let nb = next () in
   let blocks = List.init nb (fun _ ->
     let lst () = let n = next () in List.init n (fun _ -> nat (next ())) in
